@@ -273,3 +273,7 @@ Proof.
     apply find_some in Ef. destruct Ef as [Hx _]. pose proof (rn_length x p Hx).
     rewrite (IH f2 (remove_node x p)); [reflexivity|lia|lia].
 Qed.
+
+Theorem pdag_total_proof : forall qual p fuel, length (V p) <= fuel ->
+  pdag_loop qual fuel p = pdag_loop qual (length (V p)) p.
+Proof. intros qual p fuel H. apply pdag_loop_fuel; [exact H|apply le_n]. Qed.
